@@ -100,7 +100,7 @@ prop('C07', 'p32', 'exploration',
      POOL_RULES + '. Invariant after EVERY step: every pool member equals its own model (so interference in any direction is caught where it happens), the caller\'s argument slice is unchanged, no function returns one of its inputs, '
      'and (structural, hook) no backing array is reachable from two live bitmaps unless both slots carry the copy-on-write flag. A second machine does the same for roaring64. '
      'Non-trivial = the history mutates a bitmap inside a chunk key that it has in common with a bitmap it was derived from / that was derived from it; distinct = FNV-64 of the op list',
-     T(4, 250, 16, 4000),
+     T(8, 300, 16, 4000),
      'model-based stateful property testing over a pool of bitmaps (rapid state machine) + structural sharing invariant via hook',
      'generated histories with a per-bitmap model; bounded length; no proof of absence',
      'trusted: interval-set model; the verif hook exposes backing-array addresses and flags read-only', COMMON_ASSUME, run='^TestC07')
@@ -109,7 +109,7 @@ prop('C09', 'p32', 'exploration',
      POOL_RULES + ', plus portable/frozen write->read round trips that replace a member; histories start from the empty bitmap. Invariant after every step, for every member: Validate()==nil AND independently of Validate: hook walk (ascending keys, no empty chunk, arrays <=4096, bitmaps >4096) '
      'and strict independent decode of ToBytes() (cardinality fields == popcount, arrays strictly increasing, runs sorted/non-overlapping/NON-ADJACENT/in range); ToBytes failing is itself a violation. '
      'Non-trivial = some step changed the kind signature of the pool (a chunk changed kind, appeared or disappeared); distinct = FNV-64 of the op list',
-     T(4, 250, 16, 4000),
+     T(8, 300, 16, 4000),
      'stateful property testing of a data-structure invariant (rapid state machine), with an oracle independent of Validate()',
      'generated histories; invariant checked after every step by Validate() and by an independent structural walk',
      'trusted: independent portable decoder; hook for the in-memory walk', SER_ASSUME)
@@ -118,6 +118,13 @@ prop('C14', 'p32', 'exploration',
      POOL_RULES + ', plus serialization round trips; histories start from the empty bitmap. Invariant after every step, for every member, before and after RunOptimize (on a clone): with N=cardinality and x in {max+1, max+2, next chunk edge, +1 chunk, 2^32}: '
      'GetSerializedSizeInBytes <= 8+9*ceil(x/65536)+2N and <= BoundSerializedSizeInBytes(N,x), and len(ToBytes()) == GetSerializedSizeInBytes. '
      'Non-trivial = a non-empty member holds a run or bitmap chunk; distinct = FNV-64 of the op list',
-     T(4, 250, 16, 4000),
+     T(8, 300, 16, 4000),
      'stateful property testing of a size bound (rapid state machine)',
      'generated histories; bound evaluated after every step', 'trusted: the bound formula as printed in README / BoundSerializedSizeInBytes', COMMON_ASSUME)
+
+prop('C11', 'p32', 'exploration',
+     'rapid draws a list of 0..8 bitmaps (pointer duplicates, empty members, any chunk kinds and storage forms) whose keys fall in a common window of 1..260 keys placed at the bottom, middle or very top (ending at 0xFFFF) of the key space; one of FastOr/HeapOr/ParOr/ParHeapOr/FastAnd/ParAnd/HeapXor/x.AndAny is compared with the model fold; '
+     'the Par* functions are run with EVERY worker count in {0,1,2,3,4,7,16,33} on the same list and each result is compared. Non-trivial = >=3 members, >=2 distinct keys, >=1 key common to >=2 members; distinct = FNV-64 of (list, fn)',
+     T(4, 700, 16, 10000),
+     'property-based differential testing of n-ary aggregates against a model fold, all worker counts per case',
+     'generated-input search with an independent model as oracle', 'trusted: interval-set model', COMMON_ASSUME)
